@@ -346,6 +346,86 @@ func evalCase(cs Case) (class, msg string) {
 	return "", ""
 }
 
+// runTestContexts: the test-context constructors build a router from the global options they are given; that
+// router's configuration is in force for the context (Context.ClientIP outside a route) and for the routes created
+// on it afterwards, exactly as with New.
+func runTestContexts(c *mc.Ctx, r *mc.Result) {
+	if c.Shard != 0 {
+		return
+	}
+	gos := globalOpts()
+	var lists [][]opt
+	lists = append(lists, nil)
+	for _, a := range gos {
+		lists = append(lists, []opt{a})
+		for _, b := range gos {
+			lists = append(lists, []opt{a, b})
+		}
+	}
+	r.Bounds["test-contexts"] = fmt.Sprintf("%d lists of <=2 router-wide options through NewTestContext and NewTestContextOnly: Context.ClientIP of the context and the configuration inherited by a route created on its router", len(lists))
+	for li, l := range lists {
+		m := &model{}
+		var gopts []fox.GlobalOption
+		for i, o := range l {
+			m.apply(o, i+1, true)
+			gopts = append(gopts, toGlobal(o, i+1))
+		}
+		if m.invalid {
+			continue
+		}
+		for _, ctor := range []string{"NewTestContext", "NewTestContextOnly"} {
+			r.Evaluations++
+			r.DistinctNontrivial++
+			var tc fox.Context
+			var f *fox.Router
+			var pv any
+			func() {
+				defer func() { pv = recover() }()
+				if ctor == "NewTestContext" {
+					var t *fox.TestContext
+					f, t = fox.NewTestContext(fx.NewRW(), fx.Req("GET", "", "/"), gopts...)
+					tc = t
+				} else {
+					t := fox.NewTestContextOnly(fx.NewRW(), fx.Req("GET", "", "/"), gopts...)
+					tc, f = t, t.Fox()
+				}
+			}()
+			desc := fmt.Sprintf("%s with router-wide options %v", ctor, l)
+			if pv != nil {
+				r.Violate("test-contexts", "panic", fmt.Sprintf("%s panicked: %v", desc, pv), li)
+				continue
+			}
+			got := "none"
+			if ip, err := tc.ClientIP(); err == nil {
+				got = ip.String()
+			} else if !errors.Is(err, fox.ErrNoClientIPResolver) {
+				got = "err:" + err.Error()
+			}
+			want := m.resolver
+			if want == "" {
+				want = "none"
+			}
+			if got != want {
+				r.Violate("test-contexts", "wrong-resolver-in-handler", fmt.Sprintf("Context.ClientIP of the context answers %s, want %s: %s", got, want, desc), li)
+				continue
+			}
+			rt, err := f.NewRoute("/t", func(fox.Context) {})
+			if err != nil {
+				r.Violate("test-contexts", "valid-rejected", err.Error()+": "+desc, li)
+				continue
+			}
+			gotRes := ""
+			if rs := rt.ClientIPResolver(); rs != nil {
+				ip, _ := rs.ClientIP(nil)
+				gotRes = ip.String()
+			}
+			if rt.RedirectTrailingSlashEnabled() != m.redirect || rt.IgnoreTrailingSlashEnabled() != m.ignore || gotRes != m.resolver {
+				r.Violate("test-contexts", "wrong-slash-mode", fmt.Sprintf("a route created on the context's router has redirect=%v ignore=%v resolver=%q, want %v %v %q: %s", rt.RedirectTrailingSlashEnabled(), rt.IgnoreTrailingSlashEnabled(), gotRes, m.redirect, m.ignore, m.resolver, desc), li)
+			}
+		}
+	}
+}
+
 // runAccessors: accessor consistency on patterns with many wildcards (counter widths): ParamsLen()
 // equals the number of wildcards, Hostname()+Path() equals Pattern(); a pattern beyond the parameter
 // limit is rejected, never accepted with a wrapped count.
@@ -799,6 +879,16 @@ func init() {
 				cc := *c
 				cc.Shard = 0
 				runShared(&cc, r)
+				if len(r.Violations) > 0 {
+					return r.Violations[0].Msg
+				}
+				return ""
+			}},
+			{Name: "test-contexts", Run: runTestContexts, Replay: func(c *mc.Ctx, raw json.RawMessage) string {
+				r := mc.NewResult()
+				cc := *c
+				cc.Shard = 0
+				runTestContexts(&cc, r)
 				if len(r.Violations) > 0 {
 					return r.Violations[0].Msg
 				}
